@@ -1697,6 +1697,7 @@ func (f *Frame) storeInstr(x *ssa.Store) {
 	if fa, ok := x.Addr.(*ssa.FieldAddr); ok {
 		st := pointee(fa.X.Type())
 		fl := st.Underlying().(*types.Struct).Field(fa.Field)
+		f.guardCheck(fa, st, fl, x)
 		k := kindOf(fl.Type())
 		_, isArr := fl.Type().Underlying().(*types.Array)
 		if k != VStruct && !isArr {
@@ -1721,6 +1722,7 @@ func (f *Frame) unop(x *ssa.UnOp) {
 		if fa, ok := x.X.(*ssa.FieldAddr); ok {
 			st := pointee(fa.X.Type())
 			fl := st.Underlying().(*types.Struct).Field(fa.Field)
+			f.guardCheck(fa, st, fl, x)
 			k := kindOf(fl.Type())
 			_, isArr := fl.Type().Underlying().(*types.Array)
 			if k != VStruct && !isArr {
@@ -2050,4 +2052,36 @@ func rootAlloc(addr ssa.Value) *ssa.Alloc {
 		}
 	}
 	return nil
+}
+
+// guardCheck: a field declared `guarded T.f by lock` may only be read or written while that lock is held by the current
+// thread (obligation of the guard's property; accesses to objects allocated by this activation are exempt).
+func (f *Frame) guardCheck(fa *ssa.FieldAddr, st types.Type, fl *types.Var, in ssa.Instruction) {
+	tr := f.tr
+	g, ok := tr.eng.db.Guards[typeKey(st)+"."+fl.Name()]
+	if !ok || (tr.prop != "" && tr.prop != g.Prop) {
+		return
+	}
+	if _, fresh := fa.X.(*ssa.Alloc); fresh {
+		return
+	}
+	base := f.val(fa.X)
+	s := st.Underlying().(*types.Struct)
+	var lockRef string
+	for i := 0; i < s.NumFields(); i++ {
+		if s.Field(i).Name() == g.LockField {
+			if g.Addr {
+				lockRef = tr.subRef(st, g.LockField, base.T)
+			} else {
+				lockRef = tr.loadField(f.cur.St, st, s.Field(i), base.T).T
+			}
+		}
+	}
+	if lockRef == "" {
+		tr.errorf("guarded %s.%s: no lock field %s", typeKey(st), fl.Name(), g.LockField)
+		return
+	}
+	held := sSel(tr.stateGet(f.cur.St, "G/mutexHeld", ghostSort("map[ref]bool")), lockRef)
+	what := "access to " + shortTypeKey(st) + "." + fl.Name() + " without holding " + g.LockField
+	f.addSiteW(g.Prop, "guarded."+shortTypeKey(st)+"."+fl.Name(), "guarded-by", "field "+fl.Name()+" is guarded by "+g.LockField, f.siteSigInstr(in), sAnd(f.cur.R, sNot(held)), what)
 }
